@@ -777,3 +777,22 @@ Example class_file_drive_exclusion_necessary :
   | _, _ => False
   end.
 Proof. vm_compute. repeat split. Qed.
+
+(* ================= ".." behind a sole normalized drive letter left class 1 of Known_C01 (task c01file5) ================= *)
+(* no base: file:C:/../x and file:/c|/../../y are outside Known_C01 now (kf_fin_ok relaxed with kf_sole), in the file
+   class, and both sides give file:///C:/x and file:///c:/y; file:///a/C:/../x (the drive letter is not the sole
+   segment) stays in class 1 and the sides differ there (F-C01-5: file:///a/C:/x against the Standard's file:///a/x) *)
+Example known_sole_drive :
+  let idna := id_idna in
+  let P i := parse_url true (host_parse idna) host_parse_opaque host_display None None i in
+  let S i := spec_basic_url_parse (spec_host_parser idna) i None in
+  let ok i h := known_c01 None i = 0 /\ in_class_file i = true
+                /\ match P i, S i with
+                   | POk u, BDone su => q_href u = h /\ api_of_model true u = Some (spec_api_list spec_host_serializer su)
+                   | _, _ => False end in
+  ok [102;105;108;101;58;67;58;47;46;46;47;120] [102;105;108;101;58;47;47;47;67;58;47;120] /\ ok [102;105;108;101;58;47;99;124;47;46;46;47;46;46;47;121] [102;105;108;101;58;47;47;47;99;58;47;121]
+  /\ known_c01 None [102;105;108;101;58;47;47;47;97;47;67;58;47;46;46;47;120] = 1
+  /\ match P [102;105;108;101;58;47;47;47;97;47;67;58;47;46;46;47;120], S [102;105;108;101;58;47;47;47;97;47;67;58;47;46;46;47;120] with
+     | POk u, BDone su => q_href u = [102;105;108;101;58;47;47;47;97;47;67;58;47;120] /\ get_href spec_host_serializer su = [102;105;108;101;58;47;47;47;97;47;120]
+     | _, _ => False end.
+Proof. vm_compute. repeat split. Qed.
